@@ -742,13 +742,22 @@ func (p *Producer) opDeploy() *transaction.Transaction {
 	}
 	p.names++
 	name := fmt.Sprintf("st%d", p.names)
-	c := StoreContract(p.T, u.Hash(), name, 1)
+	c := StoreContractVariant(p.T, u.Hash(), name, 1, p.manifestVariant())
 	mb, _ := json.Marshal(c.Manifest)
 	nb, _ := c.NEF.Bytes()
 	tx := p.Call("deploy", []neotest.Signer{u.S}, p.MgmtH, "deploy", nb, mb, nil)
 	d := &Deployed{Hash: c.Hash, Owner: u.Idx, Version: 1, Name: name}
 	p.pending[tx.Hash()] = func() { p.Live = append(p.Live, d); p.Deploys++ }
 	return tx
+}
+
+// manifestVariant picks the manifest shape of a deployment or update: the
+// plain wildcard half of the time, one of the restricted shapes otherwise.
+func (p *Producer) manifestVariant() int {
+	if p.R.Intn(2) == 0 {
+		return 0
+	}
+	return 1 + p.R.Intn(ManifestVariants-1)
 }
 
 func (p *Producer) opRun() *transaction.Transaction {
@@ -773,7 +782,7 @@ func (p *Producer) opUpdate() *transaction.Transaction {
 	}
 	u := p.Users[d.Owner]
 	ver := 3 - d.Version
-	c := StoreContract(p.T, u.Hash(), d.Name, ver)
+	c := StoreContractVariant(p.T, u.Hash(), d.Name, ver, p.manifestVariant())
 	mb, _ := json.Marshal(c.Manifest)
 	nb, _ := c.NEF.Bytes()
 	tx := p.Call("update", []neotest.Signer{u.S}, d.Hash, "update", nb, mb)
